@@ -83,6 +83,14 @@ class Normalizer:
     def __init__(self, P, cls):
         self.P, self.cls = P, cls
 
+    def _defs_of(self, fn):
+        c = getattr(self, '_defs_cache', None)
+        if c is None:
+            c = self._defs_cache = {}
+        if id(fn) not in c:
+            c[id(fn)] = single_defs(fn)
+        return c[id(fn)]
+
     def accessor(self, name, call):
         """inline trivial accessors of self: property getters / zero-arg methods with a single return"""
         hit = self.P.lookup(self.cls, name)
@@ -102,7 +110,11 @@ class Normalizer:
         return None
 
     def norm(self, e, env=None, depth=0):
-        env = env if env is not None else {}
+        if env is None:
+            # no environment given: locals with a single definition in the enclosing function (`now = self.env.now`,
+            # `env = self._env`) are substituted, so that hoisting a sub-expression into a local does not change a normal form
+            fn = self.P.enclosing_function(e) if depth == 0 else None
+            env = self._defs_of(fn) if fn is not None else {}
         if depth > 12:
             return Lin({ast.unparse(e): 1})
         n = lambda x: self.norm(x, env, depth + 1)
